@@ -59,7 +59,9 @@ func c17Sequences(x *runCtx) {
 	r := gen.Rand(x.seed + 1717)
 	sizes := []int{1, 1014, 3000, 5000, 40000}
 	if x.thorough() {
-		sizes = append(sizes, 0, 1013, 1015, 2028, 32768, 32769, 65536, 100000)
+		// no empty file: the property speaks of files of at least one byte (what an empty fdo.download does is the subject
+		// of the theorem download_empty_stalls and of the main C17 run, not of these sequences)
+		sizes = append(sizes, 2, 1013, 1015, 2028, 32768, 32769, 65536, 100000)
 	}
 	type variant struct {
 		name   string
